@@ -152,13 +152,17 @@ def docx(variant: str) -> tuple[bytes, dict]:
                                           f'{_wp("cm" + tag)}</w:comment></w:comments>').encode()
             has += ["fn" + tag, "cm" + tag]
     if variant.startswith("img"):
-        rels.append(f'<Relationship Id="rId5" Type="{_REL}image" Target="media/image1.png"/>')
+        rels.append(f'<Relationship Id="rId5" Type="{_REL}image" Target="{"media/Image1.Png" if variant == "imgcase" else "media/image1.png"}"/>')
         body.append('<w:p><w:r><w:drawing><wp:inline xmlns:wp="http://schemas.openxmlformats.org/drawingml/2006/wordprocessingDrawing"><wp:extent cx="19050" cy="19050"/>'
                     f'<wp:docPr id="1" name="Picture 1" descr="alt{tag}"/><a:graphic xmlns:a="http://schemas.openxmlformats.org/drawingml/2006/main">'
                     '<a:graphicData uri="http://schemas.openxmlformats.org/drawingml/2006/picture"><pic:pic xmlns:pic="http://schemas.openxmlformats.org/drawingml/2006/picture">'
                     '<pic:nvPicPr><pic:cNvPr id="1" name="image1.png"/><pic:cNvPicPr/></pic:nvPicPr><pic:blipFill><a:blip r:embed="rId5"/></pic:blipFill><pic:spPr/></pic:pic>'
                     '</a:graphicData></a:graphic></wp:inline></w:drawing></w:r></w:p>')
-        if variant != "imgdangling":
+        if variant == "imgcase":
+            # the target is no exact member; several members equal it when case is ignored (legal in a ZIP), each another picture
+            for j, n_ in enumerate(("word/media/image1.png", "word/media/IMAGE1.PNG", "word/Media/image1.png", "word/media/Image1.PNG", "WORD/media/image1.png")):
+                parts[n_] = _png(20 + j)
+        elif variant != "imgdangling":
             parts["word/media/image1.png"] = _png(1 if variant == "imgA" else 2)
     if variant.startswith("sty"):
         styles = {"Heading1": "heading 1", "IsoStyle": "Iso Style " + variant}
@@ -265,8 +269,11 @@ def pptx(variant: str) -> tuple[bytes, dict]:
     if variant.startswith("img"):
         shapes += (f'<p:pic><p:nvPicPr><p:cNvPr id="4" name="Picture 4" descr="alt{tag}"/><p:cNvPicPr/><p:nvPr/></p:nvPicPr><p:blipFill><a:blip r:embed="rId2"/></p:blipFill>'
                    '<p:spPr><a:xfrm><a:off x="0" y="0"/><a:ext cx="19050" cy="19050"/></a:xfrm></p:spPr></p:pic>')
-        srels.append(f'<Relationship Id="rId2" Type="{_REL}image" Target="../media/image1.png"/>')
-        if variant != "imgdangling":
+        srels.append(f'<Relationship Id="rId2" Type="{_REL}image" Target="{"../media/Image1.Png" if variant == "imgcase" else "../media/image1.png"}"/>')
+        if variant == "imgcase":
+            for j, n_ in enumerate(("ppt/media/image1.png", "ppt/media/IMAGE1.PNG", "ppt/Media/image1.png", "ppt/media/Image1.PNG", "PPT/media/image1.png")):
+                extra.append((n_, _png(30 + j)))
+        elif variant != "imgdangling":
             extra.append(("ppt/media/image1.png", _png(3 if variant == "imgA" else 4)))
     if variant.startswith("cm"):
         srels.append(f'<Relationship Id="rId3" Type="{_REL}comments" Target="../comments/comment1.xml"/>')
@@ -653,12 +660,15 @@ def mail_unnamed(kind: str, variant: str) -> tuple[bytes, dict]:
     """Attachments whose media type is supported but whose name cannot route them: no file name at all, a name without extension, an extension nobody
     knows, an empty name; 'named' is the control (an ordinary file name)."""
     tag = f"isomailname{kind}{variant.replace('-', '')}"
+    cid = variant.endswith("-cid")
+    variant = variant[:-4] if cid else variant
     cd = {"noname": "attachment", "noext": 'attachment; filename="report"', "unknownext": 'attachment; filename="export.dat1"', "emptyname": 'attachment; filename=""',
           "named": 'attachment; filename="page.html"', "inline-noname": "inline"}[variant]
     parts = []
     for ctype, content in (("text/html; charset=utf-8", f"<html><body><p>html att {tag}</p></body></html>"), ("text/plain; charset=utf-8", f"plain att {tag}"),
                            ("text/csv", f"a,b\r\n{tag},1"), ("application/json", '{"k": "%s"}' % tag)):
-        parts.append(f"--isoNM\r\nContent-Type: {ctype}\r\nContent-Disposition: {cd}\r\n\r\n{content}\r\n")
+        cid_h = f"Content-ID: <part{len(parts)}.{tag}@iso.example>\r\n" if cid else ""      # the only handle such a part has
+        parts.append(f"--isoNM\r\nContent-Type: {ctype}\r\nContent-Disposition: {cd}\r\n{cid_h}\r\n{content}\r\n")
     raw = (f"From: a{tag}@iso.example\r\nTo: b@iso.example\r\nSubject: {tag}\r\nDate: Mon, 02 Jan 2023 03:04:05 +0000\r\nMessage-ID: <{tag}@iso>\r\nMIME-Version: 1.0\r\n"
            "Content-Type: multipart/mixed; boundary=\"isoNM\"\r\n\r\n--isoNM\r\nContent-Type: text/plain; charset=us-ascii\r\n\r\n"
            f"body {tag} end{tag}\r\n" + "".join(parts) + "--isoNM--\r\n").encode("ascii")
@@ -666,7 +676,7 @@ def mail_unnamed(kind: str, variant: str) -> tuple[bytes, dict]:
 
 
 MAIL_SIZED = ["msg-long", "msg-short", "msg-mid", "msg-tiny", "multi-long", "multi-short", "file-long", "file-short"]
-MAIL_UNNAMED = ["noname", "noext", "unknownext", "emptyname", "inline-noname", "named"]
+MAIL_UNNAMED = ["noname", "noext", "unknownext", "emptyname", "inline-noname", "named", "noname-cid", "emptyname-cid", "inline-noname-cid", "named-cid"]
 
 
 # ------------------------------------------------------------------------------------------------------------ nesting deeper than the interpreter's recursion limit
@@ -778,9 +788,9 @@ def archive(variant: str) -> tuple[bytes, dict]:
 FAMILIES = {
     "rtf-cp": ("rtf", lambda v: rtf_codepage(*_rtf_variant(v)), ".rtf",
                [f"{'none' if cp is None else cp}" for cp in RTF_CODEPAGES] + ["1252:upper", "1251:upper", "1250:mixed", "1251:mixed", "none:mixed", "1252:hf", "1251:hf", "1250:hf", "none:hf"]),
-    "docx": ("docx", docx, ".docx", ["hfA", "hfB", "hfdangling", "hfnone", "hfother", "nometa", "notesA", "notesB", "notesdangling", "imgA", "imgB", "imgdangling", "styA", "styB"]),
+    "docx": ("docx", docx, ".docx", ["hfA", "hfB", "hfdangling", "hfnone", "hfother", "nometa", "notesA", "notesB", "notesdangling", "imgA", "imgB", "imgdangling", "imgcase", "styA", "styB"]),
     "xlsx": ("xlsx", xlsx, ".xlsx", ["sstA", "sstB", "sstinline", "nometa", "vals-double", "vals-bool", "vals-int", "vals-text", "vals-mixed"]),
-    "pptx": ("pptx", pptx, ".pptx", ["imgA", "imgB", "imgdangling", "cmA", "cmB", "cmdangling", "nometa", "plain"]),
+    "pptx": ("pptx", pptx, ".pptx", ["imgA", "imgB", "imgdangling", "imgcase", "cmA", "cmB", "cmdangling", "nometa", "plain"]),
     "odt": ("odt", lambda v: odf("odt", v), ".odt", ODF_META_FORMS),
     "ods": ("ods", lambda v: odf("ods", v), ".ods", ODF_META_FORMS),
     "odp": ("odp", lambda v: odf("odp", v), ".odp", ODF_META_FORMS),
@@ -851,7 +861,7 @@ def feature(src, kind: str = "") -> str:
         return fam + "-typed-values"
     if var in ("meta", "nometa", "emptymeta", "nostyles", "bare", "plain"):
         return fam + "-optional-parts"
-    stem = re.sub(r"(A|B|C|D|E|dangling|none|other|inline)$", "", var)
+    stem = re.sub(r"(A|B|C|D|E|dangling|none|other|inline|case)$", "", var)
     return fam + ("-" + stem if stem else "")
 
 
@@ -868,11 +878,11 @@ def groups() -> list[dict]:
         g("rtf:hex-escape/code-page", "rtf-cp", FAMILIES["rtf-cp"][3]),
         g("docx:header-part-name/package", "docx", ["hfA", "hfB", "hfdangling", "hfnone", "hfother"]),
         g("docx:note-id/package", "docx", ["notesA", "notesB", "notesdangling"]),
-        g("docx:image-rid/package", "docx", ["imgA", "imgB", "imgdangling"]),
+        g("docx:image-rid/package", "docx", ["imgA", "imgB", "imgdangling", "imgcase"]),
         g("docx:style-id/package", "docx", ["styA", "styB", "nometa"]),
         g("xlsx:shared-string-index/workbook", "xlsx", ["sstA", "sstB", "sstinline", "nometa"]),
         g("xlsx:equal-values-of-different-types/cell-type", "xlsx", ["vals-double", "vals-bool", "vals-int", "vals-text", "vals-mixed"]),
-        g("pptx:image-rid/package", "pptx", ["imgA", "imgB", "imgdangling"]),
+        g("pptx:image-rid/package", "pptx", ["imgA", "imgB", "imgdangling", "imgcase"]),
         g("pptx:comment-part-name/package", "pptx", ["cmA", "cmB", "cmdangling", "plain", "nometa"]),
         g("epub:manifest-id/package", "epub", ["A", "B", "nometa"]),
         g("eml:boundary-msgid-cid/message", "eml", ["A", "B"]),
@@ -899,6 +909,10 @@ def groups() -> list[dict]:
         g("mbox:attachment-name-fallback/stored-attachment", "mbox-unnamed", MAIL_UNNAMED),
         g("eml:attachment-name-fallback/stored-attachment", "eml-unnamed", MAIL_UNNAMED),
     ]
+    # legacy Office: the same kind of property-set strings under different declared code pages (1252 as MS Office writes it, 65001 as LibreOffice does),
+    # generated by the corpus writers (vlib/gen/ole.py, read-only): a decoder must take the code page from the file at hand
+    out.append({"name": "ole:summary-strings/property-set-code-page",
+                "members": [(f, ["gen", f, sd, ft]) for f in ("ppt", "xls", "doc") for sd in (0, 1) for ft in ("cp1252-summary", None)]})
     out.append({"name": "markup:deep-nesting/interpreter-recursion-limit",
                 "members": [("html", ["iso", "deep-html", v]) for v in FAMILIES["deep-html"][3]] + [("mhtml", ["iso", "deep-mhtml", v]) for v in FAMILIES["deep-mhtml"][3]]
                 + [("html", ["iso", "html", "cpA"]), ("epub", ["iso", "epub", "A"])]})
